@@ -322,22 +322,27 @@ def gen_c17(tier, rng):
     n = 150 if tier == "quick" else 2000
     for k in range(n):
         kind = rng.choice(["tcp", "tcp", "rtu", "ascii"])
-        cfg = {"single": rng.choice([0, 1]), "hosted": rng.choice([[1], [1, 2], [247, 3]]), "broadcast": 0, "ignore": rng.choice([0, 1])}
+        cfg = {"single": rng.choice([0, 1]), "hosted": rng.choice([[1], [1, 2], [247, 3], [0, 1], [1, 255]]), "broadcast": 0,
+               "ignore": rng.choice([0, 1])}
         units = make_units(cfg)
         reqs = []
         for j in range(rng.randint(1, 6)):
-            u = rng.choice(cfg["hosted"] + cfg["hosted"] + [9])
+            u = rng.choice(cfg["hosted"] + cfg["hosted"] + [9, 4])
             p = rand_request(rng, allow_other=False) if rng.random() < 0.9 else bytes([43, 14, 1, 0])
             reqs.append((u, rng.randint(0, 65535), p))
         frames = build_frames(kind, reqs)
         fes = (D.STREAM_FES + D.DGRAM_FES) if kind == "tcp" else (D.STREAM_FES + ["syncSerial"])
+        split = (k % 3 == 2)           # every third history: arbitrary chunk boundaries, on the stream front-ends only
+        if split:
+            fes = [fe for fe in fes if not D.FRONTENDS[fe].datagram]
         runs = []
         sched = None
         for fe in fes:
             case = Case("x", "strict", fe, kind, cfg, copy.deepcopy(units))
             case.add_conn(frames)
             if sched is None:
-                sched = schedule_for(case, "syncUdp", rng, "frames")      # whole frames per event: valid for every front-end
+                # whole frames per event is valid for every front-end; random boundaries only for streams
+                sched = schedule_for(case, "syncTcp" if split else "syncUdp", rng, "random" if split else "frames")
             case.schedule = sched
             t = run_case(case)
             runs.append({"fe": fe, "obs": obs_of(t)})
